@@ -96,36 +96,36 @@ func (a *agg) evidence(spec engSpec, meta core.Meta, tier string, seed uint64, w
 	}
 	distinct := len(a.classes)
 	cov := map[string]interface{}{
-		"evaluations":                int(a.evals),
-		"distinct_nontrivial":        distinct,
-		"rule":                       meta.Rule,
-		"samples":                    a.samples,
-		"simulated_runs":             a.runs,
-		"planned_runs":               planned,
-		"stopped_by_budget":          stopped,
-		"runs_per_hour":              int(float64(a.runs) / batchS * 3600),
-		"seeds":                      map[string]interface{}{"verif_seed": seed, "first_run_seed": firstSeed, "last_run_seed": lastSeed},
-		"simulated_time_total_s":     float64(a.simNs) / 1e9,
-		"faults_fired":               a.faults,
-		"fault_free_runs":            a.faultFree,
-		"reach_probes":               a.probes,
-		"workload_probes_required":   meta.WorkloadProbes,
-		"workload_probes_never_hit":  zeroProbes,
-		"distinct_interleavings":     len(a.interleavings),
-		"new_classes_in_last_tenth":  newLate,
-		"stats":                      a.stats,
-		"wakeup_ties":                a.ties,
-		"verdicts":                   a.verdicts,
-		"violation_signatures":       vs,
-		"known_findings_seen":        knownSeen,
-		"components":                 meta.Components,
-		"instrumented_by_overlay":    b.Overlay,
-		"determinism_slice":          fmt.Sprintf("%d cases x %d processes at GOMAXPROCS 1/4/16: identical result lines (incl. full event trace)", detSeeds, detProcs),
-		"build_s":                    b.BuildS,
-		"exhaustive":                 meta.Exhaustive && tier == "thorough" && !stopped,
-		"sweep_cases":                map[string]int{"quick": meta.SweepQuick, "thorough": meta.SweepThorough},
-		"race_detector":              spec.Race,
-		"regression_tapes_replayed":  a.regress,
+		"evaluations":               int(a.evals),
+		"distinct_nontrivial":       distinct,
+		"rule":                      meta.Rule,
+		"samples":                   a.samples,
+		"simulated_runs":            a.runs,
+		"planned_runs":              planned,
+		"stopped_by_budget":         stopped,
+		"runs_per_hour":             int(float64(a.runs) / batchS * 3600),
+		"seeds":                     map[string]interface{}{"verif_seed": seed, "first_run_seed": firstSeed, "last_run_seed": lastSeed},
+		"simulated_time_total_s":    float64(a.simNs) / 1e9,
+		"faults_fired":              a.faults,
+		"fault_free_runs":           a.faultFree,
+		"reach_probes":              a.probes,
+		"workload_probes_required":  meta.WorkloadProbes,
+		"workload_probes_never_hit": zeroProbes,
+		"distinct_interleavings":    len(a.interleavings),
+		"new_classes_in_last_tenth": newLate,
+		"stats":                     a.stats,
+		"wakeup_ties":               a.ties,
+		"verdicts":                  a.verdicts,
+		"violation_signatures":      vs,
+		"known_findings_seen":       knownSeen,
+		"components":                meta.Components,
+		"instrumented_by_overlay":   b.Overlay,
+		"determinism_slice":         fmt.Sprintf("%d cases x %d processes at GOMAXPROCS 1/4/16: identical result lines (incl. full event trace)", detSeeds, detProcs),
+		"build_s":                   b.BuildS,
+		"exhaustive":                meta.Exhaustive && tier == "thorough" && !stopped,
+		"sweep_cases":               map[string]int{"quick": meta.SweepQuick, "thorough": meta.SweepThorough},
+		"race_detector":             spec.Race,
+		"regression_tapes_replayed": a.regress,
 	}
 	return map[string]interface{}{
 		"property_id": spec.Prop, "tier": tier, "seed": int64(seed), "level": meta.Level,
